@@ -22,6 +22,9 @@ Over the instantiations (N = 1, 2, 3, double) of
     with q a quotient by vpm - vp(k) (vpm the mean of vp(a), vp(b)) the tensors
     are exactly n{k,a} and n{k,b}.  (The mixed tensor n_ij couples eigenvalues
     i and j only: d n_i/ds = sum_j (n_ij ^ n_ij)/(vp_i - vp_j).)
+ R4 orientation (AST): a divided difference (X - Y) / (U - V) over eigenvalues
+    pairs X with U and Y with V (f[i] with vp(i), a mean value with the mean of
+    the same pair): otherwise its sign is wrong.
  R3 sibling agreement (AST): in the decomposition in positive and negative
     parts, the increment of dpp in the 'vp(k) > 0' arm and the increment of dnp
     in the 'vp(k) < 0' arm are the same expression, and likewise pp / np.
@@ -202,6 +205,62 @@ def guard_rule(rep, f):
         rep.ok("%s: every division by an eigenvalue difference is guarded by the coincidence test of that pair (%d divisions)" % (name_of(f), nd[0]))
 
 
+def orientation_rule(rep, f):
+    """R4: a divided difference (X - Y) / (U - V) over eigenvalues pairs X with U and Y with V."""
+    means = mean_of(f)
+    inits = {}
+    for s, n in f.stmts.items():
+        if n["k"] == "DeclStmt":
+            for d in n["decls"]:
+                if "init" in d and d.get("name"):
+                    inits[d["declId"]] = d["init"]
+
+    def idx_of(sid, depth=0):
+        """set of eigenvalue indices a term refers to."""
+        sid = f.strip(sid)
+        n = f.stmts.get(sid)
+        if n is None or depth > 4:
+            return None
+        t = f.text(sid)
+        ids = [f.stmts[x].get("declId") for x in f.walk(sid) if f.stmts[x]["k"] == "DeclRefExpr" and f.stmts[x].get("name") == "vpm"]
+        if ids:
+            return set(means.get(ids[0], ()))
+        if n["k"] == "DeclRefExpr" and n.get("declId") in inits and n.get("local"):
+            r = set()
+            for x in f.walk(inits[n["declId"]]):
+                m_ = f.stmts[x]
+                if m_["k"] in ("CXXOperatorCallExpr", "ArraySubscriptExpr") and (m_.get("op") in ("[]", "()") or m_["k"] == "ArraySubscriptExpr"):
+                    mm = re.search(r"[\(\[](\w+)[\)\]]$", f.text(x))
+                    if mm:
+                        r.add(mm.group(1))
+            return r or None
+        found = re.findall(r"[\(\[](\w+)[\)\]]", t)
+        found = [x for x in found if re.match(r"^(\d|[a-z])$", x)]
+        return set(found) or None
+    n_ = 0
+    for s, n in sorted(f.stmts.items()):
+        if not (n["k"] == "BinaryOperator" and n.get("op") == "/"):
+            continue
+        ks = f.kids(s)
+        key = divisor_key(f, ks[1], means)
+        num = f.stmts.get(f.strip(ks[0]))
+        den = f.stmts.get(f.strip(ks[1]))
+        if key is None or num is None or den is None or num["k"] != "BinaryOperator" or num.get("op") != "-" or den["k"] != "BinaryOperator":
+            continue
+        nl, nr = [idx_of(x) for x in f.kids(f.strip(ks[0]))[:2]]
+        dl, dr = [idx_of(x) for x in f.kids(f.strip(ks[1]))[:2]]
+        if None in (nl, nr, dl, dr):
+            continue
+        n_ += 1
+        if nl <= dl and nr <= dr:
+            rep.ok("%s: %s / %s pairs each value with its eigenvalue" % (name_of(f), f.text(ks[0]), f.text(ks[1])), sample=False)
+        else:
+            rep.fail("ORIENTATION@%s#%s" % (re.sub(r"<.*", "", name_of(f)), rel(f.short_loc(s)).rsplit(":", 1)[-1]),
+                     "%s: in %s the divided difference %s / %s subtracts the values in the opposite order of the eigenvalues (or pairs a value "
+                     "with the wrong eigenvalue): its sign is wrong" % (rel(f.short_loc(s)), name_of(f), f.text(ks[0]), f.text(ks[1])))
+    rep.count("divided differences (X - Y) / (U - V)", n_)
+
+
 def tensors_of(f, sid, scaled=False):
     """set of index pairs {I,J} for an expression made of (nIJ ^ nIJ) terms (possibly a sum); None if something else."""
     sid = f.strip(sid)
@@ -325,11 +384,13 @@ def clauses(rep, sub="C05"):
     for f in sorted(funcs, key=lambda g: g.display):
         guard_rule(rep, f)
         coupling_rule(rep, f)
+        orientation_rule(rep, f)
         sibling_rule(rep, f)
     rep.floor("instantiations analysed", 12)
     rep.floor("divisions by an eigenvalue difference", 30)
     rep.floor("coupling terms q * (nIJ ^ nIJ)", 30)
     rep.floor("positive/negative arm pairs compared", 8)
+    rep.floor("divided differences (X - Y) / (U - V)", 8)
 
 
 def run(tier):
